@@ -1,3 +1,4 @@
+import Fpdec.Kernels.Float
 import Fpdec.Lemmas.FromFloat
 import Fpdec.Props.C13_Sites
 
@@ -179,5 +180,14 @@ example : tryFromFloat Profile.dev .f64 4591870180066957722 = .ok (.ok ⟨100000
 -- 2^127 as f64: InternalOverflow;  +inf: InfiniteValue
 example : tryFromFloat Profile.release .f64 (1150 * 2 ^ 52) = .ok (.error .overflow) := by decide
 example : tryFromFloat Profile.dev .f32 (255 * 2 ^ 23) = .ok (.error .infinite) := by decide
+
+/-! ### translated kernels
+The Lean definitions `Gen.K.*` are regenerated from the Rust source on every run by `tools/fpkernels.py` (expression-level
+translation).  These theorems tie them to the hand-written model the property theorems above are about: a change of the Rust
+kernel that changes its translation breaks them. -/
+theorem kernel_normalize (prof : Profile) (c : Int) (n : Nat) (hn : n < 256) :
+    Gen.K.normalize prof c n = .ok (normalize c n) := Kernels.normalize_eq prof c n hn
+theorem kernel_approx_rational (prof : Profile) (a d : Int) :
+    Gen.K.approx_rational prof a d = approxRational prof a d := Kernels.approx_rational_eq prof a d
 
 end Fpdec.Props.C13
